@@ -44,8 +44,12 @@ def wsFn (m : List (Nat × Nat)) (f : Nat) : Nat :=
   | some p => p.2
   | none => 1
 
-def parseDot (s : String) : Option (List Nat) :=
-  if s == "" then some [] else (s.splitOn ".").mapM (fun x => x.toNat?)
+/-- locations `f/p.f/p…` -/
+def parseDot (s : String) : Option (List (Nat × Nat)) :=
+  if s == "" then some [] else (s.splitOn ".").mapM (fun x =>
+    match x.splitOn "/" with
+    | [f, p] => do pure ((← f.toNat?), (← p.toNat?))
+    | _ => none)
 
 def parseRecords (s : String) : Option (List (List String)) :=
   if s == "-" then some [] else some ((s.splitOn ";").map (fun e => e.splitOn ":"))
@@ -73,7 +77,10 @@ def handle (op : String) (args : List String) : Option String :=
   | "export_types", [mains, listing] => do
     let mains ← parseList mains
     let l ← parseTypes listing
-    pure ("ok " ++ showList ((Export.exportTypes (fun f => mains.contains f) l).map (·.name)))
+    pure ("ok " ++ Drv.joinWith "," ((Export.exportTypes (fun f => mains.contains f) l).map fun t =>
+      match t.locs with
+      | [] => s!"{t.name}/-/-"
+      | (f, p) :: _ => s!"{t.name}/{f}/{p}"))
   | "export_modules", [mains, listing] => do
     let mains ← parseList mains
     let l ← parseModules listing
